@@ -327,7 +327,23 @@ LayoutItems(ev) ==
         Item("elem_off", eq(ev.elem_off, PrefixSums(Rep, P))), Item("telem_off", eq(ev.telem_off, PrefixSums(DoF, P))),
         \* element<i>() of a mutable view, of a const view and of a const bundle alias the same segments
         Item("elem_off_views", IF ev.elem_off_view = PrefixSums(Rep, P) /\ ev.elem_off_cview = PrefixSums(Rep, P) /\ ev.elem_off_const = PrefixSums(Rep, P)
-                                  /\ ev.telem_off_view = PrefixSums(DoF, P) /\ ev.telem_off_cview = PrefixSums(DoF, P) THEN 0 ELSE 2000000000) >>
+                                  /\ ev.telem_off_view = PrefixSums(DoF, P) /\ ev.telem_off_cview = PrefixSums(DoF, P) THEN 0 ELSE 2000000000),
+        \* Random / setRandom reach every element (a valid element that is not the identity, a tangent segment that is not zero);
+        \* setIdentity / Zero / setZero reach every coefficient
+        Item("random_valid", LET band == FMulInt(IF ev.sc = "f" THEN FMulInt(FPow2(-23), 100) ELSE FMulInt(FPow2(-52), 100), 2 * Len(P))
+                             IN IF FinV(ev.rand) /\ FinV(ev.rand2) /\ FinV(ev.trand) /\ FinV(ev.trand2)
+                                THEN (LET a == FRatioMilli(Dev(g, DV(ev.rand)), band)  b == FRatioMilli(Dev(g, DV(ev.rand2)), band) IN IF a > b THEN a ELSE b)
+                                ELSE 2000000000),
+        Item("random_every_element",
+             LET gseg(c, i) == SubSeq(c, Off(Rep, P, i) + 1, Off(Rep, P, i) + Rep(P[i]))
+                 tseg(c, i) == SubSeq(c, Off(DoF, P, i) + 1, Off(DoF, P, i) + DoF(P[i]))
+                 zero(n) == [k \in 1..n |-> Z]
+             IN IF \A i \in 1..Len(P) :
+                     /\ gseg(ev.rand, i) # gseg(ev.ident, i) /\ gseg(ev.rand2, i) # gseg(ev.ident, i) /\ gseg(ev.rand, i) # gseg(ev.rand2, i)
+                     /\ DV(tseg(ev.trand, i)) # zero(DoF(P[i])) /\ DV(tseg(ev.trand2, i)) # zero(DoF(P[i])) /\ tseg(ev.trand, i) # tseg(ev.trand2, i)
+                THEN 0 ELSE 2000000000),
+        Item("set_identity_zero", IF ev.setid = ev.ident /\ M(g, DV(ev.ident)) = MId(MatN(g))
+                                     /\ DV(ev.tzero) = [k \in 1..DoF(g) |-> Z] /\ DV(ev.tsetzero) = [k \in 1..DoF(g) |-> Z] THEN 0 ELSE 2000000000) >>
 \* each Bundle operation returns exactly what the element operations return, placed at the offsets
 BelemItems(ev) ==
   LET \* the property demands EQUALITY with the element-wise operation, not a particular evaluation order: a few unit
